@@ -3,6 +3,7 @@ package main
 import (
 	"encoding/json"
 	"fmt"
+	"go/types"
 	"math"
 	"os"
 	"sort"
@@ -15,6 +16,7 @@ import (
 )
 
 var (
+	visMu     sync.RWMutex
 	replMu    sync.RWMutex
 	intrMu    sync.RWMutex
 	intrCache = map[*ssa.Function]intrinsicFn{}
@@ -37,6 +39,7 @@ type Config struct {
 	Tier          string
 	Split         int // number of vsplit partitions (0 = none)
 	MaxWallS      int
+	MaxSwitches   int
 }
 
 func defaultConfig() Config {
@@ -166,6 +169,8 @@ func applyCfg(c *Config, kv map[string]string, tier string) error {
 			c.Split = n
 		case "maxwall":
 			c.MaxWallS = n
+		case "maxswitches":
+			c.MaxSwitches = n
 		case "bound", "tier", "use":
 		default:
 			if strings.HasPrefix(k, "b_") {
@@ -432,6 +437,10 @@ func (ex *Exec) runPath(it workItem) (end string, msg string) {
 	ex.pathEpoch++
 	ex.epoch = ex.pathEpoch
 	defer func() {
+		if ex.threads != nil {
+			ex.threads.killAll()
+			ex.threads = nil
+		}
 		// undo writes to init-time state
 		for i := len(ex.trail) - 1; i >= 0; i-- {
 			ex.trail[i]()
@@ -614,6 +623,9 @@ func (ex *Exec) reportViolationK(id, msg string, m Model, known string) {
 		}
 	}
 	h := ex.h
+	if ex.threads != nil && len(ex.threads.schedule) > 0 {
+		msg += " schedule: " + strings.Join(ex.threads.schedule, " ")
+	}
 	v := Violation{Harness: h.decl.Name, Assert: id, Msg: msg, Witness: ex.witness(m), Obs: ex.obsStrings(m), Known: known}
 	h.mu.Lock()
 	defer h.mu.Unlock()
@@ -782,6 +794,102 @@ func init() {
 				ex.ufIdx[key] = k
 			}
 			return ex.tc.Var(fmt.Sprintf("uf_%s_%d", tag, k), F32Sort), true
+		},
+		// vcallAnon(parent, args...): run the anonymous function of `parent` whose parameters match the
+		// trailing arguments; its free variables are bound, by type, to the remaining arguments (zero otherwise).
+		"vcallAnon": func(ex *Exec, fn *ssa.Function, a []Value) (Value, bool) {
+			pname, _ := concreteStr(a[0])
+			parent := ex.ld.findFunc(pname)
+			if parent == nil {
+				ex.inconclusive("vcallAnon: no function " + pname)
+			}
+			var vals []IfaceV
+			if sl, ok := a[1].(SliceV); ok && sl.arr != nil {
+				for _, e := range ex.sliceElems(sl) {
+					vals = append(vals, e.(IfaceV))
+				}
+			}
+			var target *ssa.Function
+			var params []Value
+			for _, af := range parent.AnonFuncs {
+				if len(af.Params) == 0 || len(af.Params) > len(vals) {
+					continue
+				}
+				tail := vals[len(vals)-len(af.Params):]
+				ok := true
+				for i, p := range af.Params {
+					if tail[i].t == nil || !(types.Identical(tail[i].t, p.Type()) || types.AssignableTo(tail[i].t, p.Type())) {
+						ok = false
+					}
+				}
+				if ok {
+					target = af
+					for i, p := range af.Params {
+						if _, isI := p.Type().Underlying().(*types.Interface); isI {
+							params = append(params, tail[i])
+						} else {
+							params = append(params, tail[i].v)
+						}
+					}
+					vals = vals[:len(vals)-len(af.Params)]
+					break
+				}
+			}
+			if target == nil {
+				ex.inconclusive("vcallAnon: no anonymous function of " + pname + " takes these arguments")
+			}
+			fvs := make([]Value, len(target.FreeVars))
+			for i, fv := range target.FreeVars {
+				et := fv.Type().(*types.Pointer).Elem()
+				c := ex.newCell(et)
+				for _, v := range vals {
+					if v.t != nil && types.Identical(v.t, et) {
+						ex.storeCell(c, v.v)
+					}
+				}
+				fvs[i] = PtrV{c: c}
+			}
+			ex.stubsSeen["vcallAnon: "+target.String()+" entered directly; captured variables bound by type, others zero"] = true
+			ex.call(target, params, fvs)
+			return nil, true
+		},
+		"vspawn": func(ex *Exec, fn *ssa.Function, a []Value) (Value, bool) {
+			ex.threadsInit().spawn(ex, a[0].(FuncV), nil)
+			return nil, true
+		},
+		"vspawnDaemon": func(ex *Exec, fn *ssa.Function, a []Value) (Value, bool) {
+			ts := ex.threadsInit()
+			ts.spawn(ex, a[0].(FuncV), nil)
+			ts.threads[len(ts.threads)-1].daemon = true
+			return nil, true
+		},
+		"vrunThreads": func(ex *Exec, fn *ssa.Function, a []Value) (Value, bool) {
+			ex.threadsInit().run(ex)
+			return nil, true
+		},
+		"vyield": func(ex *Exec, fn *ssa.Function, a []Value) (Value, bool) {
+			if ex.threads != nil {
+				ex.threads.yieldPoint(ex, "yield", false)
+			}
+			return nil, true
+		},
+		"vwait": func(ex *Exec, fn *ssa.Function, a []Value) (Value, bool) {
+			if ex.threads != nil {
+				ex.threads.yieldPoint(ex, "wait", true)
+			}
+			return nil, true
+		},
+		"vthreadID": func(ex *Exec, fn *ssa.Function, a []Value) (Value, bool) {
+			if ex.threads != nil && ex.threads.cur != nil && ex.threads.running {
+				return ex.intConst(ex.threads.cur.id), true
+			}
+			return ex.intConst(-1), true
+		},
+		"vschedule": func(ex *Exec, fn *ssa.Function, a []Value) (Value, bool) {
+			if ex.threads == nil {
+				return ex.emptyStr, true
+			}
+			return ex.strConst(strings.Join(ex.threads.schedule, " ")), true
 		},
 		"vand": func(ex *Exec, fn *ssa.Function, a []Value) (Value, bool) {
 			return ex.tc.And(a[0].(*Term), a[1].(*Term)), true
